@@ -7,9 +7,17 @@ reports as written by session S has a content that S reported writing (modulo wh
 import concurrent.futures, json, os, traceback
 
 from vlib import common as C, e2e, sysrun as S, split_corr
+from vlib.props import c03_discard as D
 
 PROP = "C03"
-THEOREMS = ["GitAi.Sys.no_invention", "GitAi.Sys.ghost_only_from_agent_edit", "GitAi.Sys.restore_is_valid_edit"]
+THEOREMS = ["GitAi.Sys.no_invention", "GitAi.Sys.ghost_only_from_agent_edit", "GitAi.Sys.restore_is_valid_edit",
+            "GitAi.Sys.no_invention_all_ops", "GitAi.Sys.no_invention_all_ops_note", "GitAi.Sys.discard_drops_claims",
+            "GitAi.Sys.regression_O3_stale_initial_after_path_checkout", "GitAi.Sys.regression_O20_initial_by_line_number_after_restore",
+            "GitAi.Sys.regression_O17_stale_entry_after_restore", "GitAi.Sys.regression_O21_stash_drop_stale_entry",
+            "GitAi.Sys.witness_path_checkout_loses_staged_ai_line"]
+# findings the line-identity model cannot see (token level / commit coordinates): runs in which the content oracle
+# reports one of them are not held against the model
+EXPLAINED = ("reconstruction-keeps-ai-on-line-rewritten-by-person", "line-added-by-commit-was-modified-again-unstaged")
 SESS = ["s1", "s2"]
 HASH2S = {S.hash_of(s): s for s in SESS}
 
@@ -34,6 +42,8 @@ class Walk:
         self.human_inplace = set()  # files in which a person rewrote/modified lines in place
         self.recon_taint = set()    # ... and that then went through an attribution reconstruction
         self.ai_lines = {}          # path -> session -> texts (normalised) the session wrote into that file
+        self.obs = []               # what the oracle saw at every check (for correspondence:discard-e2e)
+        self.state = None           # (head, stash depth) after the last git command
 
     # ---------------------------------------------------------------- helpers
     def files(self):
@@ -128,9 +138,17 @@ class Walk:
     RECON = (("reset", "--soft"), ("reset", "--mixed"), ("stash", "pop"), ("stash", "apply"), ("rebase",), ("cherry-pick",),
              ("merge",), ("commit", "-q", "--amend"), ("revert",))
 
+    def git_state(self):
+        rc, out, _ = self.r.plain_git("stash", "list")
+        rc2, cnt, _ = self.r.plain_git("rev-list", "--count", "--first-parent", "HEAD")
+        return self.r.head(), len([l for l in out.split("\n") if l.strip()]), int(cnt.strip() or 0) if rc2 == 0 else 0
+
     def git(self, *args):
+        h0, n0, d0 = self.state or self.git_state()
         rc, out, err = self.r.git(*args)
-        self.log(op="git", args=list(args), rc=rc)
+        h1, n1, d1 = self.state = self.git_state()
+        self.log(op="git", args=list(args), rc=rc, head0=h0, head1=h1, nstash0=n0, nstash1=n1, depth0=d0, depth1=d1,
+                 files={p: self.read_lines(p) for p in self.files() if self.r.exists(p)})
         if rc == 0 and any(tuple(args[:len(k)]) == k for k in self.RECON):
             self.recon_taint |= self.human_inplace
         return rc
@@ -262,19 +280,31 @@ class Walk:
         r.git("add", "-A"); r.git("commit", "-q", "-m", "base")
         self.commits.append(r.head())
         self.log(op="base", files={p: self.read_lines(p) for p in (f, g, "f2.txt")})
-        pos = {}
+        pos, ai_new = {}, {}
         for p in (f, g):
             ls = self.read_lines(p)
             k = 1 + rng.below(len(ls) - 1)
             new = [self.fresh("s1") for _ in range(2)]
             pos[p] = k
+            ai_new[p] = new
             self.directed_edit("s1", p, ls[:k] + new + ls[k:], new)
-        if pending_via == "initial":
+        if pending_via in ("initial", "edited"):
             # a partial commit of something else leaves both files' AI lines pending in INITIAL
             self.directed_edit("human", "f2.txt", self.read_lines("f2.txt") + [self.fresh("human")])
             self.git("add", "--", "f2.txt")
             if self.git("commit", "-q", "-m", "partial") == 0:
                 self.commits.append(r.head())
+            if pending_via == "edited":
+                # ... and the person types above the pending lines before the operation (no checkpoint in between):
+                # whatever reads INITIAL now has to carry its line numbers over through the recorded content
+                for p in (f, g):
+                    self.directed_edit("human", p, [self.fresh("human")] + self.read_lines(p))
+        elif pending_via == "staged":
+            # the AI lines are staged, then the person edits further: a path checkout / restore brings the STAGED
+            # version (with the AI lines) back (replay of Props/C03.lean witness_path_checkout_loses_staged_ai_line)
+            self.git("add", "-A")
+            for p in (f, g):
+                self.directed_edit("human", p, self.read_lines(p) + [self.fresh("human")])
         # the discard
         if x == "reset-hard": self.git("reset", "--hard")
         elif x == "checkout-dashdash": self.git("checkout", "--", f)
@@ -314,10 +344,14 @@ class Walk:
             ls = self.read_lines(p)
             k = min(pos[p], len(ls))
             own = [l for l in ls if norm(l) in self.wrote["s1"]]
-            if own and rng.chance(1, 2):
+            if own and rng.chance(1, 2) and pending_via not in ("staged", "retype"):
                 ls = [l for l in ls if l not in own]          # delete the AI lines first
                 k = min(k, len(ls))
-            ls[k:k] = [self.fresh("human") for _ in range(2 + rng.below(2))]
+            if pending_via == "retype":
+                # the person types the very text the agent had written (a claim that survived the discard would take it)
+                ls[k:k] = [t for t in ai_new[p] if t not in ls]
+            else:
+                ls[k:k] = [self.fresh("human") for _ in range(2 + rng.below(2))]
             self.directed_edit("human", p, ls)
         self.git("add", "-A")
         if self.git("commit", "-q", "-m", "retyped") == 0:
@@ -334,9 +368,14 @@ class Walk:
     # ---------------------------------------------------------------- oracle
     def check(self, where):
         r = self.r
+        rc, out, _ = r.plain_git("rev-list", "--first-parent", "HEAD")
+        chain = [x for x in out.split() if x][:-1] if rc == 0 else []
+        seen_notes = {}
+        ob = {"where": where, "chain": [], "blame": {}}
         # every note line of every annotated commit
         for sha in r.notes_list():
             note = r.note(sha)
+            seen_notes[sha] = note
             if not note:
                 continue
             for p in note["files"]:
@@ -354,6 +393,16 @@ class Walk:
                         continue      # a blank / whitespace-only line carries no content
                     if text is None or norm(text) not in self.wrote[s]:
                         self.fail("note", where, sha, p, ln, text, s)
+        for sha in chain:
+            note = seen_notes.get(sha)
+            per = {}
+            for p in (note["files"] if note else []):
+                la = {ln: int(HASH2S[h][1:]) for ln, h in e2e.note_line_authors(note, p).items() if h in HASH2S}
+                if la:
+                    per[p] = la
+            ob["chain"].append({"sha": sha, "notes": per})
+        self.obs.append(ob)
+        self.log(op="obs", where=where)
         # blame of every tracked file at HEAD (only when the file is clean)
         rc, out, _ = r.plain_git("status", "--porcelain", "-z")
         dirty = {e[3:] for e in out.split("\0") if e}
@@ -366,6 +415,7 @@ class Walk:
             bj = r.blame(p)
             if bj is None:
                 continue
+            ob["blame"][p] = {ln: int(HASH2S[h][1:]) for ln, h in e2e.blame_line_hashes(bj).items() if h in HASH2S}
             for ln, h in e2e.blame_line_hashes(bj).items():
                 s = HASH2S.get(h)
                 text = lines[ln - 1] if 0 < ln <= len(lines) else None
@@ -520,9 +570,9 @@ def _run_walk(seed, length):
             for st in w.steps:
                 k = st["op"] if st["op"] != "git" else "git " + " ".join(a for a in st["args"][:2] if not a.startswith("-q"))
                 ops[k] = ops.get(k, 0) + 1
-            return w.failures, w.steps, ops
+            return w.failures, w.steps, ops, w.obs
     except Exception as ex:
-        return [("runner-exception", {"error": repr(ex), "trace": traceback.format_exc()[-1500:]})], [], {}
+        return [("runner-exception", {"error": repr(ex), "trace": traceback.format_exc()[-1500:]})], [], {}, []
 
 
 def run_recipe(args, _attempt=0):
@@ -531,20 +581,43 @@ def run_recipe(args, _attempt=0):
         with e2e.Env() as env:
             w = Walk(env, seed)
             w.run_recipe(x, via)
-            return w.failures, w.steps, {f"recipe:{x}/{via}": 1}
+            return w.failures, w.steps, {f"recipe:{x}/{via}": 1}, w.obs
     except Exception as ex:
         if _attempt < 2:
             return run_recipe(args, _attempt + 1)
-        return [("runner-exception", {"error": repr(ex), "trace": traceback.format_exc()[-1500:]})], [], {}
+        return [("runner-exception", {"error": repr(ex), "trace": traceback.format_exc()[-1500:]})], [], {}, []
+
+
+def slim(steps):
+    """the executed steps proper (no oracle points, no recorded state)"""
+    return [{k: v for k, v in st.items() if k not in ("files", "head0", "head1", "nstash0", "nstash1", "depth0", "depth1")} for st in steps if st["op"] != "obs"]
+
+
+TIE_NAME = ("correspondence:discard-e2e (Discard model's predicted notes of every commit on HEAD's first-parent chain and blame of "
+            "every clean file vs the binary's, at every oracle point of the walks and recipes inside the modelled alphabet)")
+
+
+def discard_tie(res, runs):
+    bad = D.tie(res, runs, EXPLAINED)
+    res.extra.setdefault("_discard_bad", []).extend(bad)
+
+
+def discard_finish(res):
+    bad = res.extra.pop("_discard_bad", [])
+    res.obligation(TIE_NAME, not bad, "correspondence")
+    if bad:
+        res.broken_tie("correspondence:discard-e2e", {"disagreeing_runs": len(bad), "first": bad[0]})
+    return bad
 
 
 def phase_recipes(res, seed, rounds, threads=16):
     """directed histories: pending AI lines, a discarding or shelving operation, the person retypes"""
-    jobs = [(seed * 1000 + 17 * k + i, x, via) for k in range(rounds) for i, x in enumerate(Walk.DISCARDS) for via in ("initial", "entries")]
+    jobs = [(seed * 1000 + 17 * k + i, x, via) for k in range(rounds) for i, x in enumerate(Walk.DISCARDS) for via in ("initial", "entries", "staged", "retype", "edited")]
     with concurrent.futures.ThreadPoolExecutor(threads) as ex:
         outs = list(ex.map(run_recipe, jobs))
-    for job, (failures, steps, ops) in zip(jobs, outs):
-        res.count_case(json.dumps(steps, ensure_ascii=False), nontrivial=len(steps) > 5)
+    discard_tie(res, [(f"recipe {job[1]}/{job[2]} seed {job[0]}", o[0], o[1], o[3]) for job, o in zip(jobs, outs)])
+    for job, (failures, steps, ops, _obs) in zip(jobs, outs):
+        res.count_case(json.dumps(slim(steps), ensure_ascii=False), nontrivial=len(slim(steps)) > 5)
         res.tag([f"op:{k}" for k in ops])
         seen = set()
         for sig, d in failures:
@@ -552,14 +625,15 @@ def phase_recipes(res, seed, rounds, threads=16):
                 continue
             seen.add(sig)
             res.oracle_failure(sig, {"seed": job[0], "recipe": job[1], "pending_via": job[2], "detail": d,
-                                     "steps": [{k: v for k, v in st.items()} for st in steps]}, what=f"directed recipe {job[1]}/{job[2]}: {sig}")
+                                     "steps": [{k: v for k, v in st.items() if k != "files"} for st in steps]}, what=f"directed recipe {job[1]}/{job[2]}: {sig}")
 
 
 def phase_walks(res, seeds, length, threads=16):
     with concurrent.futures.ThreadPoolExecutor(threads) as ex:
         outs = list(ex.map(lambda s: run_walk(s, length), seeds))
-    for seed, (failures, steps, ops) in zip(seeds, outs):
-        res.count_case(json.dumps(steps, ensure_ascii=False), nontrivial=len(steps) > 5)
+    discard_tie(res, [(f"walk seed {seed} length {length}", o[0], o[1], o[3]) for seed, o in zip(seeds, outs)])
+    for seed, (failures, steps, ops, _obs) in zip(seeds, outs):
+        res.count_case(json.dumps(slim(steps), ensure_ascii=False), nontrivial=len(slim(steps)) > 5)
         res.tag([f"op:{k}" for k in ops])
         res.sample({"seed": seed, "steps": [{k: v for k, v in st.items() if k != "content"} for st in steps[:15]]}, cap=2)
         seen = set()
@@ -568,7 +642,7 @@ def phase_walks(res, seeds, length, threads=16):
                 continue
             seen.add(sig)
             res.oracle_failure(sig, {"seed": seed, "length": length, "detail": d,
-                                     "steps": [{k: v for k, v in st.items()} for st in steps]}, what=f"end-to-end oracle {sig}")
+                                     "steps": [{k: v for k, v in st.items() if k != "files"} for st in steps]}, what=f"end-to-end oracle {sig}")
 
 
 def run(tier, seed):
@@ -609,7 +683,9 @@ def run(tier, seed):
     phase_recipes(res, seed, 1 if tier == "quick" else 12)
     n = 64 if tier == "quick" else 2000
     phase_walks(res, [seed * 100000 + i for i in range(n)], 25 if tier == "quick" else 40)
+    discard_finish(res)
     if res.broken and not res.violations:
         phase_walks(res, [seed * 100000 + 50000 + i for i in range(192)], 40)
+        res.extra.pop("_discard_bad", None)
         res.extra["search"] = "192 extra random walks of length 40 against the content oracle"
     return res.finish()
